@@ -1,6 +1,8 @@
 (* C18: banned directive kinds in the core model (model/Core.v).
    - no directive of a banned kind is ever created, so none survives the scan;
-   - a keyword of a banned kind ends the scan with 'not allowed' at that keyword;
+   - a keyword of a banned kind ends the scan with 'not allowed' at that keyword, once the directive
+     read before it has been placed (also before a banned INCLUDE: a misplaced directive is diagnosed
+     first);
    - with INCLUDE banned the scan does not depend on the file system at all;
    - a scan that is not refused as 'not allowed' is the scan without the option, and the
      option only matters where the run without it meets a keyword of a banned kind.
@@ -222,7 +224,8 @@ Section Ban.
     destruct (lexkind_eqb (lk l) LKeyword).
     - destruct (value_of (cs_sc s) l) as [kw| | |]; cbn [cbind]; try discriminate.
       destruct (beq kw (kind_keyword KInclude)).
-      + apply process_include_all; exact Hs.
+      + destruct (flush_cur s) as [s0| | |] eqn:H0; cbn [cbind]; try discriminate.
+        apply process_include_all. exact (flush_cur_all _ _ _ Hs H0).
       + apply process_keyword_all; exact Hs.
     - destruct (lexkind_eqb (lk l) LContextExplicitClosing).
       + destruct (flush_cur s) as [s1| | |] eqn:H1; cbn [cbind]; try discriminate.
@@ -317,10 +320,26 @@ Section Ban.
     - exists e; split; [reflexivity|left; reflexivity].
   Qed.
 
-  (* processInclude: the ban is the first thing looked at *)
+  (* processInclude: the ban is the first thing looked at (the directive read before the INCLUDE has
+     been placed by then: drainCurrentScanner calls processCurrentDirective first) *)
   Lemma ban_include_rejected s l :
     kind_in KInclude banned = true -> process_include s l = CErr (ban_error s l KInclude).
   Proof. intros Hb. unfold Core.process_include. rewrite Hb. reflexivity. Qed.
+
+  Lemma ban_error_flush s s1 l k : flush_cur s = COk s1 -> ban_error s1 l k = ban_error s l k.
+  Proof.
+    intros H. destruct (flush_cur_keeps _ _ H) as [Hsc [Hst _]]. unfold ban_error. rewrite Hsc, Hst. reflexivity.
+  Qed.
+
+  (* at the lexeme level: an INCLUDE keyword while INCLUDE is banned, the pending directive placeable *)
+  Lemma ban_include_lexeme_rejected s l s1 :
+    lexkind_eqb (lk l) LKeyword = true -> value_of (cs_sc s) l = COk (kind_keyword KInclude) ->
+    flush_cur s = COk s1 -> kind_in KInclude banned = true ->
+    process_lexeme s l = CErr (ban_error s l KInclude).
+  Proof.
+    intros Hlk Hv H1 Hb. unfold Core.process_lexeme. rewrite Hlk, Hv. cbn [cbind]. rewrite beq_refl, H1. cbn [cbind].
+    rewrite ban_include_rejected by exact Hb. rewrite (ban_error_flush _ _ _ _ H1). reflexivity.
+  Qed.
 
   Lemma ban_error_passes {A} s x1 ol l k :
     sc_next (cs_sc s) = Ok (x1, ol) ->
@@ -353,25 +372,38 @@ Section Ban.
      in the file being read (and the include trace of that file); nothing after it is processed *)
   Theorem ban_diagnostic_at_first_lemma fuel s x1 l kw k :
     next_keyword s x1 l kw k -> kind_in k banned = true ->
-    (* the directive read just before has a place (otherwise ITS error is reported, at its keyword) *)
-    (k = KInclude \/ exists s1, flush_cur (upd_sc s x1) = COk s1) ->
+    (* the directive read just before has a place (otherwise ITS error is reported, at its keyword:
+       ban_after_misplaced_directive); since the repair of /repo c51680e this is asked of INCLUDE too *)
+    (exists s1, flush_cur (upd_sc s x1) = COk s1) ->
     (* JSIGHT inside an included file is refused as such *)
     (cs_stack s = [] \/ k <> KJsight) ->
     scan_project (S fuel) s = CErr (ban_error s l k).
   Proof.
-    intros [Hn [Hlk [Hv Hk]]] Hb Hfl Hj. rewrite scan_project_S, Hn.
+    intros [Hn [Hlk [Hv Hk]]] Hb [s1 H1] Hj. rewrite scan_project_S, Hn.
     unfold Core.process_lexeme. simpl cs_sc. rewrite Hlk, Hv. cbn [cbind].
     destruct (beq kw (kind_keyword KInclude)) eqn:Hi.
     - rewrite (include_keyword_kind _ Hi) in Hk. inversion Hk; subst k.
-      rewrite ban_include_rejected by exact Hb. rewrite (ban_error_passes _ _ _ _ _ Hn). reflexivity.
-    - destruct Hfl as [->|[s1 H1]].
-      + exfalso. apply directive_type_keyword in Hk; [|discriminate]. subst kw.
-        rewrite beq_refl in Hi. discriminate.
-      + erewrite ban_keyword_rejected; try eassumption.
-        * rewrite (ban_error_passes _ _ _ _ _ Hn). reflexivity.
-        * destruct Hj as [Hj|Hj]; [left; exact Hj|right].
-          destruct (beq kw (kind_keyword KJsight)) eqn:Hjs; [|reflexivity].
-          apply beq_eq in Hjs. subst kw. exfalso. apply Hj. vm_compute in Hk. congruence.
+      rewrite H1. cbn [cbind].
+      rewrite ban_include_rejected by exact Hb. rewrite (ban_error_flush _ _ _ _ H1).
+      rewrite (ban_error_passes _ _ _ _ _ Hn). reflexivity.
+    - erewrite ban_keyword_rejected; try eassumption.
+      + rewrite (ban_error_passes _ _ _ _ _ Hn). reflexivity.
+      + destruct Hj as [Hj|Hj]; [left; exact Hj|right].
+        destruct (beq kw (kind_keyword KJsight)) eqn:Hjs; [|reflexivity].
+        apply beq_eq in Hjs. subst kw. exfalso. apply Hj. vm_compute in Hk. congruence.
+  Qed.
+
+  (* ... and when the directive read just before has no place, ITS diagnostic ends the scan: the
+     keyword of the banned kind (INCLUDE as well) is not looked at *)
+  Theorem ban_after_misplaced_directive fuel s x1 l kw k e :
+    next_keyword s x1 l kw k -> flush_cur (upd_sc s x1) = CErr e ->
+    scan_project (S fuel) s = with_scan_trace s (CErr e).
+  Proof.
+    intros [Hn [Hlk [Hv Hk]]] H1. rewrite scan_project_S, Hn.
+    unfold Core.process_lexeme. simpl cs_sc. rewrite Hlk, Hv. cbn [cbind].
+    destruct (beq kw (kind_keyword KInclude)).
+    - rewrite H1. cbn [cbind]. unfold with_scan_trace. destruct (ce_trace e); reflexivity.
+    - unfold Core.process_keyword. rewrite H1. cbn [cbind]. unfold with_scan_trace. destruct (ce_trace e); reflexivity.
   Qed.
 
   (* without side conditions: a keyword of a banned kind always ends the scan with an error *)
@@ -382,7 +414,9 @@ Section Ban.
     unfold Core.process_lexeme. simpl cs_sc. rewrite Hlk, Hv. cbn [cbind].
     destruct (beq kw (kind_keyword KInclude)) eqn:Hi.
     - rewrite (include_keyword_kind _ Hi) in Hk. inversion Hk; subst k.
-      rewrite ban_include_rejected by exact Hb. simpl. destruct (stack_trace _); discriminate.
+      destruct (flush_cur (upd_sc s x1)) as [s0|e0|w|]; cbn [cbind]; try discriminate.
+      + rewrite ban_include_rejected by exact Hb. simpl. destruct (stack_trace _); discriminate.
+      + simpl. destruct (ce_trace e0); discriminate.
     - destruct (ban_keyword_never_accepted (upd_sc s x1) l kw k Hk Hb) as [e [He _]]. rewrite He.
       simpl. destruct (ce_trace e); discriminate.
   Qed.
@@ -419,7 +453,7 @@ Section Reads.
     Core.process_lexeme jsc_len enum_len files banned s l = COk s' ->
     cs_stack s' = cs_stack s /\ cs_sc s' = cs_sc s.
   Proof.
-    intros H. apply process_lexeme_stack in H. destruct H as [[H1 H2]|[kw [_ [_ [_ H]]]]]; [split; assumption|].
+    intros H. apply process_lexeme_stack in H. destruct H as [[H1 H2]|[kw [s0 [_ [_ [_ [_ H]]]]]]]; [split; assumption|].
     unfold Core.process_include in H. rewrite Hinc in H. discriminate.
   Qed.
 
@@ -463,9 +497,13 @@ Section Conservative.
     destruct (lexkind_eqb (lk l) LKeyword) eqn:Hlk; [|left; reflexivity].
     destruct (value_of (cs_sc s) l) as [kw| | |] eqn:Hv; cbn [cbind]; try (left; reflexivity).
     destruct (beq kw (kind_keyword KInclude)) eqn:Hi.
-    - unfold Core.process_include. rewrite kind_in_nil.
+    - destruct (flush_cur s) as [s0| | |] eqn:H0; cbn [cbind]; try (left; reflexivity).
+      destruct (flush_cur_keeps _ _ H0) as [Hsc0 [Hst0 _]].
+      unfold Core.process_include. rewrite kind_in_nil.
       destruct (kind_in KInclude banned) eqn:Hb; [|left; reflexivity].
-      right. exists kw, KInclude. repeat split; try assumption. apply include_keyword_kind; exact Hi.
+      right. exists kw, KInclude.
+      split; [reflexivity|]. split; [first [exact Hv|reflexivity]|]. split; [apply include_keyword_kind; exact Hi|]. split; [first [exact Hb|reflexivity]|].
+      unfold scan_err. rewrite Hsc0, Hst0. reflexivity.
     - unfold Core.process_keyword.
       destruct (flush_cur s) as [s1| | |] eqn:H1; cbn [cbind]; try (left; reflexivity).
       destruct (flush_cur_keeps _ _ H1) as [Hsc [Hst _]].
